@@ -15,3 +15,12 @@ func mustUnJSON(s string, v interface{}) {
 		panic(err)
 	}
 }
+
+func contains(l []string, s string) bool {
+	for _, x := range l {
+		if x == s {
+			return true
+		}
+	}
+	return false
+}
